@@ -124,6 +124,11 @@ func (u *Unit) convertForAssign(st *State, v *Val, to types.Type) *Val {
 	if v == nil || to == nil {
 		return v
 	}
+	if b, ok := v.T.(*types.Basic); ok && b.Kind() == types.UntypedNil && v.Arr == "" {
+		if k := kindOf(to); k == kSlice {
+			return u.zeroVal(st, to)
+		}
+	}
 	if isIface(to) && !isIface(v.T) {
 		b := u.boxIface(st, v)
 		return &Val{T: to, S: b.S}
